@@ -629,7 +629,32 @@ def r09_7(ctx, run, rule='R09.7'):
                                 and not any(s[0] == 'len' or is_call(s, 'slice::len') for s in subterms(t)):
                             bad = True
         if not n:
-            run.undecided(rule, b.path, 'empty-literal', 'no path of the quoted-string scanner builds its Ok result in the function itself (moved to a helper?): acceptance of "" is not decided here', f'{b.file}:{b.line}')
+            # the result is built by a helper that receives the text between the quotes (`&input[1..end]`): a helper that answers Err just
+            # because that text is empty rejects the empty literal
+            rejecting = None
+            for s0 in [0] + sorted(loops):
+                for q in ex.explore(start=s0, stop=set(loops)):
+                    for e in q.calls():
+                        hb = f.bodies.get(e[1])
+                        if hb is None or hb.kind == 'Promoted' or not e[1].startswith(('jsonpath::parser::', 'util::')):
+                            continue
+                        for i_, a_ in enumerate(e[2]):
+                            r_ = deref_all(a_)
+                            if not (is_call(r_, 'Index::index', 'index::index') and len(r_[2]) == 2):
+                                continue
+                            rg_ = deref_all(r_[2][1])
+                            if not (agg_variant(rg_) and rg_[1][1].split('::')[-1] == 'Range' and const_of(rg_[2][0]) == 1):
+                                continue
+                            for hq in explore(hb)[0]:
+                                if hq.end[0] != 'return' or not (agg_variant(hq.ret) and hq.ret[1][2] == 'Err'):
+                                    continue
+                                cs = [c for c in hq.conds if not (c[0][0] == 'discr')]
+                                if cs and all(is_call(c[0], 'slice::is_empty', 'str::is_empty') and c[2] is True and deref_all(c[0][2][0])[0] == 'init' and deref_all(c[0][2][0])[1] == i_ + 1 for c in cs):
+                                    rejecting = (canon(e[1]).split('::')[-1], f"{hb.file}:{hb.line}")
+            if rejecting:
+                run.violation(rule, b.path, 'empty-literal', f'the text between the quotes is handed to {rejecting[0]}(), which answers Err when that text is empty: the empty literal "" is rejected', rejecting[1])
+            else:
+                run.undecided(rule, b.path, 'empty-literal', 'no path of the quoted-string scanner builds its Ok result in the function itself (moved to a helper?): acceptance of "" is not decided here', f'{b.file}:{b.line}')
         else:
           (run.proved if n and not bad else run.violation)(rule, b.path, 'empty-literal', 'the empty string "" is accepted' if n and not bad else
                                                           'a successful return of the quoted-string scanner requires the closing quote to be beyond position 1: the empty literal "" is rejected', f'{b.file}:{b.line}')
